@@ -68,7 +68,7 @@ def execute(case, inject):
             idx = len(obs["invs"])
             cur = asyncio.current_task()
             by = tasks.index(cur) if cur in tasks else None
-            rec = {"key": key, "start": loop.time(), "cancel_seen": False, "finished": None, "by": by}
+            rec = {"key": key, "start": loop.time(), "cancel_seen": False, "finished": None, "by": by, "ord": len(obs["invs"]) + len(obs["calls"])}
             obs["invs"].append(rec)
             if by is not None and current.get(by) is not None:
                 current[by]["started"].append(idx)
@@ -135,7 +135,7 @@ def execute(case, inject):
             c = callers[i]
             if c["at"] > 0:
                 await asyncio.sleep(c["at"])
-            call = {"i": i, "key": c["key"], "t": loop.time(), "started": []}
+            call = {"i": i, "key": c["key"], "t": loop.time(), "started": [], "ord": len(obs["invs"]) + len(obs["calls"])}
             obs["calls"].append(call)
             current[i] = call
             try:
@@ -233,9 +233,10 @@ def judge(case, obs, out: Outcome, inject):
         if used is None and res is not None and res[0] in ("val", "err") and isinstance(res[1], int):
             used = res[1]  # not obligated: identified by the outcome it received
         if used is None and not call["started"]:
-            # joined something we cannot identify (cancelled before delivery): take the latest same-key invocation
+            # joined something we cannot identify (cancelled before delivery): take the latest same-key invocation that
+            # EXISTED when the call was made (order of events, not time: several calls share one instant)
             for k in range(len(invs) - 1, -1, -1):
-                if invs[k]["key"] == key and invs[k]["start"] <= t:
+                if invs[k]["key"] == key and invs[k]["ord"] < call["ord"]:
                     used = k
                     break
         call["used"] = used
